@@ -20,6 +20,14 @@ def val(ctx, x):
             return lit(x)
         if 'dict' in x and len(x) == 1:
             return {k: val(ctx, v) for k, v in x['dict']}
+        if 'xda' in x and len(x) == 1:
+            # array-valued metadata: a labelled xarray.DataArray
+            import xarray as xr
+            d = x['xda']
+            return xr.DataArray(np.array(d['values'], dtype=float),
+                                dims=list(d['dims']),
+                                coords={k: list(v)
+                                        for k, v in d['coords'].items()})
         return {k: val(ctx, v) for k, v in x.items()}
     if isinstance(x, list):
         return [val(ctx, i) for i in x]
